@@ -16,9 +16,14 @@ and every continuation `post`:
 The FULL property is false of the code (see `known_findings.json`, C09): a replacement body
 that *continues the method header* (`forward`, `external "…"`, or `(` after a header without
 parameters) ends or breaks the header, the rest of the body is then parsed at file level and
-an unclosed `[` there swallows the following declarations.  The theorems above are therefore
-about the slice mechanism (the `_partial` form of the property: bodies that reach the slice);
-the header part is covered by the correspondence and by the implementation-level oracle.
+an unclosed `[` there swallows the following declarations.  The theorems of THIS file are
+about the slice mechanism, for every token list.  `Props/C09Prog.lean` composes them with the
+declaration round trip into the property for whole PROGRAMS — well-formed declarations around
+the method, any terminator-free replacement body that does not continue the header (`_partial`,
+decidable guard; negation witness `locality_full_fails`): other declarations' subtrees and
+outline entries unchanged, diagnostics exactly those of the body alone and inside it,
+truncation.  For surroundings outside the abstract syntax (comments, OQL) the header part
+rests on the correspondence and the implementation-level oracle.
 -/
 namespace Gold.C09
 open Gold Gold.Peg Gold.Gram
